@@ -15,6 +15,17 @@ Next == UNCHANGED <<l, rec, dvars>>
 
 Report(what, detail) == PrintT(<<"MISMATCH", ToJson([line |-> l, id |-> rec.id, what |-> what, detail |-> detail])>>)
 
+(* A nesting whose over-limit part lies within ONE signature (more than 32 arrays or 32 structs between two
+   variants) is already refused when that signature is parsed (property C06), with a signature error; the error
+   kind "depth" is demanded only when every signature involved is valid, i.e. the limit is crossed through variants. *)
+RECURSIVE SegOver(_,_,_)
+SegOver(s, a, r) == IF s = <<>> THEN FALSE
+                    ELSE IF Head(s) = "v" THEN SegOver(Tail(s), 0, 0)
+                    ELSE LET a2 == a + (IF Head(s) = "a" THEN 1 ELSE 0)
+                             r2 == r + (IF Head(s) = "r" THEN 1 ELSE 0)
+                         IN a2 > MaxA \/ r2 > MaxR \/ SegOver(Tail(s), a2, r2)
+SigOver == SegOver(rec.stack, 0, 0)
+
 FmtChecks(f, o, ok) ==
   /\ IF ok THEN
         /\ (o.enc.outcome = "ok" \/ Report("depth-enc-rejects-within-limits", [fmt |-> f, got |-> o.enc]))
@@ -22,10 +33,11 @@ FmtChecks(f, o, ok) ==
         /\ (o.enc.outcome # "ok" \/ o.enc.same_as_spec \/ Report("depth-enc-bytes", [fmt |-> f]))
         /\ (o.dec.outcome # "ok" \/ (o.dec.value_same /\ o.dec.consumed = o.len) \/ Report("depth-dec-value", [fmt |-> f, got |-> o.dec]))
      ELSE
-        /\ (o.enc.outcome = "err" \/ Report("depth-enc-accepts-over-limit", [fmt |-> f, got |-> o.enc]))
+        \* over the limits: encoding fails - or the value cannot even be built, because its signature is refused
+        /\ (o.enc.outcome \in {"err", "unbuildable"} \/ Report("depth-enc-accepts-over-limit", [fmt |-> f, got |-> o.enc]))
         /\ (o.dec.outcome = "err" \/ Report("depth-dec-accepts-over-limit", [fmt |-> f, got |-> o.dec]))
-        /\ (o.enc.outcome # "err" \/ (o.enc.both_err /\ o.enc.bytes_err = "depth") \/ Report("depth-enc-error-kind", [fmt |-> f, got |-> o.enc]))
-        /\ (o.dec.outcome # "err" \/ o.dec.kind = "depth" \/ Report("depth-dec-error-kind", [fmt |-> f, got |-> o.dec]))
+        /\ (o.enc.outcome # "err" \/ (o.enc.both_err /\ (o.enc.bytes_err = "depth" \/ SigOver)) \/ Report("depth-enc-error-kind", [fmt |-> f, got |-> o.enc]))
+        /\ (o.dec.outcome # "err" \/ o.dec.kind = "depth" \/ SigOver \/ Report("depth-dec-error-kind", [fmt |-> f, got |-> o.dec]))
 
 LineOk ==
   LET ok == StackOk(rec.stack) IN
